@@ -26,6 +26,11 @@ REPLAYS = pathlib.Path(os.environ.get('VERIF_REPLAYS_DIR') or VERIF / 'replays')
 KNOWN = VERIF / 'KNOWN_FINDINGS.json'
 
 
+class StopCheck(Exception):
+    """Raised after ctx.violation(...) when the remaining exploration cannot
+    proceed (e.g. a family schema could not be built)."""
+
+
 class HarnessError(Exception):
     """The machinery (not the property) is broken: exit 2."""
 
@@ -135,6 +140,13 @@ def _main(argv=None):
             mod.replay(ctx, data['replay'] if 'replay' in data else data)
         else:
             mod.run(ctx)
+    except StopCheck as e:
+        # a violation was recorded and the rest of the exploration depends
+        # on what failed: report what was found, mark the run incomplete
+        assert ctx.violations, 'StopCheck without a recorded violation'
+        print(f'INCOMPLETE property={pid}: {e}', flush=True)
+        ctx.cov['exhaustive'] = False
+        ctx.cov['stopped_early'] = str(e)
     except HarnessError as e:
         print(f'HARNESS-ERROR property={pid}: {e}', flush=True)
         traceback.print_exc()
